@@ -205,7 +205,7 @@ func (t *TimerCase) mainProc(ctx context.Context, cancel context.CancelFunc, moc
 	cctx := clock.ToContext(ctx, mock)
 	fan := event.NewFanOut()
 	tracer := tracing.NewTracer(cctx)
-	builder := event.DefinitionInstanceBuildingChain(timer.EventDefinitionInstanceBuilder(cctx, fan, tracer))
+	builder := event.DefinitionInstanceBuildingChain(timer.EventDefinitionInstanceBuilder(cctx, fan, tracer), event.WrappingDefinitionInstanceBuilder)
 	traces := tracer.SubscribeChannel(make(chan tracing.ITrace, 64))
 	engine := bpmn.NewEngine(bpmn.WithEngineContext(cctx))
 	gen := &ctrGen{prefix: "id"}
